@@ -3,6 +3,7 @@
    tag pool; the real client has k = 65535 (cinit = cinit_n (N.to_nat c_NOTAG)). *)
 From Coq Require Import NArith List Bool.
 From V9 Require Shape.ShapeLib Shape.PViews Recv.Views.
+From V9 Require Race.Facts Shape.PLocks.
 From V9 Require Import Lib.GoSem Gen.Consts Clnt.Model Clnt.ClntProofs.
 Import ListNotations.
 
@@ -86,3 +87,10 @@ Print Assumptions C09_compaction_refuted.
 Theorem C09_source_never_compacts_a_receive_buffer : ShapeLib.recv_never_compacts = true.
 Proof. exact PViews.recv_never_compacts_ok. Qed.
 Print Assumptions C09_source_never_compacts_a_receive_buffer.
+
+(* ---- a modelling assumption about the CURRENT source (Gen/LockFacts.v), re-checked on every run ---- *)
+(* the steps the models treat as atomic are critical sections in the source: every access to a mutex-protected
+   field (request lists and tag groups, flush chains, request status, the client's pending list and error) holds its mutex *)
+Theorem C09_source_critical_sections : V9.Race.Facts.violations = [].
+Proof. exact V9.Shape.PLocks.sites_comply_ok. Qed.
+Print Assumptions C09_source_critical_sections.
